@@ -40,7 +40,7 @@ class Infeasible(Exception):
 
 
 class State:
-    __slots__ = ("tab", "mem", "rng", "sets", "facts", "neqs", "trace", "ghost", "dead")
+    __slots__ = ("tab", "mem", "rng", "sets", "facts", "neqs", "trace", "ghost", "dead", "_budget")
 
     def __init__(self, tab):
         self.tab = tab
@@ -154,6 +154,8 @@ class State:
         if lo is not None and lo >= 0:
             return
         if lin.single() is None and lin not in self.facts:
+            if self.facts and self.prove_ge0(-lin - 1):
+                raise Infeasible()      # the opposite is entailed by what is already known
             self.facts.append(lin)
         # propagate (bounded rounds)
         for _ in range(4):
@@ -256,28 +258,46 @@ class State:
             return True
         if depth == 0 or not self.facts:
             return False
-        return self._fm(lin, depth, set())
+        idx = {}
+        for f in self.facts:
+            for s, _a in f.t:
+                idx.setdefault(s, []).append(f)
+        self._budget = 400
+        return self._fm(lin, depth, set(), idx)
 
-    def _fm(self, g, depth, seen):
+    def _fm(self, g, depth, seen, idx):
+        """Fourier-Motzkin style search: eliminate the symbol that hurts the lower bound most, using a
+        fact f >= 0 that contains it with the same sign (|cf|*g - |cg|*f >= 0 and f >= 0 imply g >= 0)"""
         lo, _ = self.interval(g)
         if lo is not None and lo >= 0:
             return True
-        if depth == 0:
-            return False
-        if g in seen:
+        if depth == 0 or g in seen:
             return False
         seen.add(g)
-        gs = dict(g.t)
-        for f in self.facts:
-            for s, cf in f.t:
-                cg = gs.get(s)
-                if cg is None or (cg > 0) != (cf > 0):
+        # rank symbols by how much they hurt the lower bound (unbounded first)
+        hurt = []
+        for s, a in g.t:
+            l, h = self.bounds(s)
+            if a > 0:
+                c = None if l is None else a * l
+            else:
+                c = None if h is None else a * h
+            if c is None:
+                hurt.append((0, 0, s, a))
+            elif c < 0:
+                hurt.append((1, c, s, a))
+        hurt.sort()
+        for _k, _c, s, cg in hurt[:3]:
+            for f in idx.get(s, ()):
+                cf = f.coef(s)
+                if (cg > 0) != (cf > 0):
                     continue
-                # |cf| * g - |cg| * f eliminates s;  f >= 0  =>  (g2 >= 0 => g >= 0)
+                self._budget -= 1
+                if self._budget < 0:
+                    return False
                 g2 = g.scale(abs(cf)) - f.scale(abs(cg))
-                if self._fm(g2, depth - 1, seen):
+                if self._fm(g2, depth - 1, seen, idx):
                     return True
-        # also try disequality strengthening: d != 0 and d >= 0 known => d-1 >= 0 handled in assume
         return False
 
     def prove_eq0(self, lin):
